@@ -265,8 +265,32 @@ def gen_handler(d):
 
 
 def gen_iface(i):
+    # Interfaces whose name starts with `g` are declared on a generic struct (`impl<const G: usize> If_x_g<G>`),
+    # so that the way the macro copies the generics of the `impl` block is exercised; `If_x` is an alias.
+    if i["name"].startswith("g"):
+        text = gen_iface_plain(i, "If_" + i["name"] + "_g")
+        ty = "If_" + i["name"] + "_g"
+        lines = []
+        for l in text.split("\n"):
+            if l.startswith("    pub struct %s {" % ty):
+                l = "    pub struct %s<const G: usize> {" % ty
+            elif l.startswith("    impl ") and l.rstrip().endswith(" for %s {" % ty):
+                l = l.replace("    impl ", "    impl<const G: usize> ", 1).replace(" for %s {" % ty, " for %s<G> {" % ty)
+            elif l.startswith("    impl ") and l.rstrip().endswith(" for %s {}" % ty):
+                l = l.replace("    impl ", "    impl<const G: usize> ", 1).replace(" for %s {}" % ty, " for %s<G> {}" % ty)
+            elif l.startswith("    impl %s {" % ty):
+                l = "    impl<const G: usize> %s<G> {" % ty
+            lines.append(l)
+        text = "\n".join(lines)
+        # the alias is what the rest of the harness uses
+        text = text.replace("pub use m_%s::%s;" % (i["name"], ty),
+                            "pub type If_%s = m_%s::%s<3>;" % (i["name"], i["name"], ty))
+        return text
+    return gen_iface_plain(i, "If_" + i["name"])
+
+
+def gen_iface_plain(i, ty):
     name = i["name"]
-    ty = "If_" + name
     o = []
     o.append("pub mod m_%s {" % name)
     o.append("    #[allow(unused_imports)]")
